@@ -341,6 +341,27 @@ static void main_touch(const char *fn, int fd) {
 ssize_t __wrap_pwrite64(int fd, const void *buf, size_t n, off_t off) { main_touch("pwrite", fd); return __real_pwrite64(fd, buf, n, off); }
 ssize_t __wrap_write(int fd, const void *buf, size_t n) { if (fd > 2) main_touch("write", fd); return __real_write(fd, buf, n); }
 int __wrap_ftruncate64(int fd, off_t len) { main_touch("ftruncate", fd); return __real_ftruncate64(fd, len); }
+// a mapping given up by the store is not returned to the system: the range stays reserved and inaccessible, so that a pointer
+// into an old mapping faults whenever it is used after the remap (not only in the instant between munmap and mmap)
+#include <sys/mman.h>
+#ifndef MAP_PRIVATE
+#define MAP_PRIVATE 0x02
+#endif
+#ifndef MAP_ANONYMOUS
+#define MAP_ANONYMOUS 0x20        // Linux
+#endif
+#ifndef MAP_NORESERVE
+#define MAP_NORESERVE 0x4000      // Linux
+#endif
+extern int __real_munmap(void *addr, size_t len);
+static _Atomic size_t g_quarantined;
+int __wrap_munmap(void *addr, size_t len) {
+  if (len >= 4096 && atomic_load(&g_quarantined) + len < ((size_t) 24 << 30)) {
+    void *p = mmap(addr, len, PROT_NONE, MAP_FIXED | MAP_PRIVATE | MAP_ANONYMOUS | MAP_NORESERVE, -1, 0);
+    if (p == addr) { atomic_fetch_add(&g_quarantined, len); return 0; }
+  }
+  return __real_munmap(addr, len);
+}
 int __wrap_msync(void *addr, size_t len, int flags) { main_touch("msync", -1); return __real_msync(addr, len, flags); }
 
 // ---------------------------------------------------------------- op interpreter
@@ -390,7 +411,11 @@ static void exec_op(Thr *t, int idx) {
     if (!db) sb_puts(&out, "nodb"); else { rc = iwkv_put(db, &k, &v, n >= 5 ? (iwkv_opflags) atoi(w[4]) : 0); sb_puts(&out, rcname(rc, eb)); }
   } else if (!strcmp(k0, "get") && n >= 3) {
     IWKV_val k = { .data = w[2], .size = strlen(w[2]) }, v = { 0 };
-    if (!db) sb_puts(&out, "nodb"); else {
+    if (!db) sb_puts(&out, "nodb"); else if (n >= 4 && w[3][0] == 'c') {   // get <db> <key> c: iwkv_get_copy into the caller's buffer
+      size_t vsz = 0;
+      rc = iwkv_get_copy(db, &k, vbuf, sizeof vbuf, &vsz); sb_puts(&out, rcname(rc, eb));
+      if (!rc) { sb_puts(&out, " "); fmtval(&out, vbuf, vsz < sizeof vbuf ? vsz : sizeof vbuf); }
+    } else {
       rc = iwkv_get(db, &k, &v); sb_puts(&out, rcname(rc, eb));
       if (!rc) { sb_puts(&out, " "); fmtval(&out, v.data, v.size); iwkv_val_dispose(&v); }
     }
